@@ -460,7 +460,8 @@ func summarizePurge(c *core.Ctx, f *core.Func) *purgeSummary {
 					k = fieldKeyOf(m, ix.X)
 				}
 				for _, ct := range perTarget {
-					if k == ct && fieldKeyOf(m, x.Args[1]) == "Entity.id" {
+					// keyed by the target's id: `e.id` of an entity, or a value of the entity-id type
+					if k == ct && (fieldKeyOf(m, x.Args[1]) == "Entity.id" || core.NamedName(m.Info.TypeOf(x.Args[1])) == "entityID") {
 						ps.target[ct] = true
 					}
 				}
@@ -524,7 +525,16 @@ func summarizePurge(c *core.Ctx, f *core.Func) *purgeSummary {
 					if !ok {
 						return true
 					}
-					byTarget := strings.HasSuffix(m.ExprString(ix.Index), "target.id")
+					// indexed by the id of a column's / relation's target
+					byTarget := false
+					if isel, ok := ast.Unparen(m.StripConv(ix.Index)).(*ast.SelectorExpr); ok && fieldKeyOf(m, isel) == "Entity.id" {
+						for _, e := range exprChain(m, f, isel.X, 0) {
+							switch fieldKeyOf(m, e) {
+							case "column.target", "relationID.target":
+								byTarget = true
+							}
+						}
+					}
 					switch inner := ast.Unparen(ix.X).(type) {
 					case *ast.IndexExpr:
 						// a.relationTables[i][target.id]: i must be the loop index over the columns
